@@ -8,9 +8,7 @@ from .engine import _guarded_execute, first_violation
 
 
 def _try(mach, run, prop, sig):
-    res, err = _guarded_execute(mach, run, (prop,), 30)
-    if err == "timeout" and hasattr(mach, "on_timeout"):
-        res, err = mach.on_timeout(run, (prop,)), None
+    res, err = _guarded_execute(mach, run, (prop,), getattr(mach, "SHRINK_TIMEOUT", 10))
     if err is not None or res is None:
         return None
     v = first_violation(res, prop, sig)
